@@ -201,5 +201,5 @@ def build(tier, repo):
     cl = w.func("coneprog", "conelp")
     loop = sc.main_loop(cl)
     rc.offsets_rule(r5, w, [("coneprog", "conelp")], node_filter=lambda n: getattr(n, "lineno", 10**9) < loop.lineno)
-    r5.require(20)
+    r5.require(12)
     return chk
